@@ -97,6 +97,8 @@ var CommoditySpecs = []symSpec{
 	{"USD-right-nogap", "USD", false, SideRight, 0},
 	{"USD-right-2gap", "USD", false, SideRight, 2},
 	{"word-nonascii-right", "руб", false, SideRight, 1},
+	// letters outside the BMP (two UTF-16 units each) in an unquoted commodity word
+	{"word-nonbmp-letters-right", "𝔸𝔹", false, SideRight, 1},
 }
 
 var DescShapes = []string{"Capitalised Words", "ALLCAPS", "7leading digit", "with:colon", "pay $5", "a=b", "naïve café", "🍕 pizza", "two  spaces"}
